@@ -8,7 +8,8 @@ def sh(*a, **k): return subprocess.run(a, stdout=subprocess.PIPE, stderr=subproc
 if sh("git", "-C", "/repo", "status", "--porcelain").stdout.strip():
     print("refusing: /repo has uncommitted changes"); sys.exit(2)
 names = sys.argv[1:] or sorted(os.listdir(os.path.join(V, "seeded")))
-results = {}
+rp = os.path.join(V, "seeded", "RESULTS.json")
+results = json.load(open(rp)) if os.path.exists(rp) else {}
 for n in names:
     d = os.path.join(V, "seeded", n)
     if not os.path.exists(os.path.join(d, "patch.diff")): continue
